@@ -12,7 +12,9 @@ mod words;
 
 fn main() {
     // a panic inside the library under test is data (recorded by the drivers), not noise
-    std::panic::set_hook(Box::new(|_| {}));
+    if std::env::var_os("VERIF_PANIC_VERBOSE").is_none() {
+        std::panic::set_hook(Box::new(|_| {}));
+    }
     let argv: Vec<String> = std::env::args().collect();
     if argv.len() < 2 {
         eprintln!("usage: verif-harness <cmd> [--seed N] [--tier quick|thorough] [--out DIR] [--shards N]");
